@@ -40,12 +40,15 @@ def run_history(job):
     rebuild it with `low` again; a further redo-ifchange runs nothing."""
     root, bindir, target_rel, low, high, premkdir, idx = job[:7]
     via_link = len(job) > 7 and job[7]      # the higher-priority candidate first appears as a DANGLING symbolic link
+    base = job[8] if len(job) > 8 else ""   # the directory that holds .redo, below the tree's top: candidates above it are "above the project base"
     top = os.path.join(root, f"h{idx}")
     PR = os.path.join(top, "pr")
     home = os.path.join(top, "home")
-    res = {"target": target_rel, "low": low, "high": high, "premkdir": premkdir, "via_link": bool(via_link), "violations": [], "runs": 0}
+    res = {"target": target_rel, "low": low, "high": high, "premkdir": premkdir, "via_link": bool(via_link), "base": base, "violations": [], "runs": 0}
     try:
         os.makedirs(PR)
+        if base:
+            os.makedirs(os.path.join(PR, base, ".redo"))
         os.makedirs(home)
         PRr = os.path.realpath(PR)
         cands = e4.ref_dofiles(PRr + "/" + target_rel)
@@ -56,7 +59,7 @@ def run_history(job):
                 return res
         tdir = os.path.dirname(target_rel)
         if premkdir and tdir:
-            os.makedirs(os.path.join(PR, tdir))
+            os.makedirs(os.path.join(PR, tdir), exist_ok=True)
         env = common.base_env(bindir, home)
         env["REDO_LOG"] = "0"
         tpath = os.path.join(PR, target_rel)
@@ -68,7 +71,8 @@ def run_history(job):
                 fh.write(HSCRIPT.format(id=i))
 
         def build(step, want):
-            rc, out, err = common.run_cmd([os.path.join(bindir, "redo-ifchange"), target_rel], PR, env, timeout=30)
+            rc, out, err = common.run_cmd([os.path.join(bindir, "redo-ifchange"), os.path.relpath(target_rel, base or ".")],
+                                          os.path.join(PR, base), env, timeout=30)
             res["runs"] += 1
             got = None
             if os.path.isfile(tpath):
@@ -78,8 +82,7 @@ def run_history(job):
                                           "stderr": err[-300:]})
                 return False
             return True
-        if not os.path.isdir(cands[low]["do_dir"]):
-            os.makedirs(cands[low]["do_dir"])
+        os.makedirs(cands[low]["do_dir"], exist_ok=True)
         place(low)
         if not build("initial-build", low):
             return res
@@ -178,6 +181,14 @@ def extra_checks(tier, verdict, cov):
                     idx += 1
                 jobs.append((root, bindir, t, low, high, True, idx, True))
                 idx += 1
+                # the same with the state directory one level down (in the target's first directory), so that the
+                # candidates in the top directory lie ABOVE the project base
+                b = t.split("/")[0] if "/" in t else ""
+                cl = in_project_candidates(t)
+                above = [not (cl[i][1] == b or cl[i][1].startswith(b + "/")) for i in (low, high)]
+                if b and any(above):
+                    jobs.append((root, bindir, t, low, high, True, idx, False, b))
+                    idx += 1
     bad = []
     runs = 0
     with concurrent.futures.ProcessPoolExecutor(max_workers=min(16, max(1, common.NCPU))) as ex:
@@ -192,13 +203,15 @@ def extra_checks(tier, verdict, cov):
         sig = {"kind": v["kind"], "target": r["target"], "target_dir_existed": r["premkdir"]}
         if r.get("via_link"):
             sig["via_link"] = True
+        if r.get("base"):
+            sig["state_dir_in"] = r["base"]
         key = json.dumps(sig, sort_keys=True)
         if key in seen:
             continue
         seen.add(key)
         if len(seen) <= 10:
             verdict.report(sig, {"engine": "E1-history", "check": "history", "target": r["target"], "low": r["low"],
-                                 "high": r["high"], "premkdir": r["premkdir"], "via_link": r.get("via_link", False), "violation": v})
+                                 "high": r["high"], "premkdir": r["premkdir"], "via_link": r.get("via_link", False), "base": r.get("base", ""), "violation": v})
     ojobs = []
     import itertools as _it
     k = 0
@@ -618,7 +631,7 @@ def replay(path):
             root = str(common.scratch_root() / "c13h")
             os.makedirs(root, exist_ok=True)
             r = run_history((root, str(common.build_subject()), doc["target"], doc["low"], doc["high"], doc["premkdir"], 0,
-                             bool(doc.get("via_link"))))
+                             bool(doc.get("via_link")), doc.get("base", "")))
             print(json.dumps(r, indent=1, ensure_ascii=False))
             bad = len(r["violations"])
         else:
